@@ -350,6 +350,28 @@ pub fn full_part(shard: usize, nshards: usize) -> Vec<String> {
             all.push(t);
         }
     }
+    // two constructs the target cannot express in one input (which of them the refusal names must
+    // not depend on the build): directives before and after \c, unsupported tests and actions
+    if shard == 1 % nshards {
+        let dirs = ["%d", "%D", "%F", "%l", "%M", "%Y", "%Z"];
+        for a in dirs {
+            for b in dirs {
+                for f in [format!("{a}{b}"), format!("{a}\\c{b}"), format!("\\c{a}{b}"), format!("%p{a}\\c%p{b}\\n"), format!("{a}\\c\\c{b}")] {
+                    all.push(format!("-printf '{f}'"));
+                    all.push(format!("-fprintf out '{f}' -ls"));
+                }
+            }
+        }
+        let prims = ["-nouser", "-nogroup", "-user u", "-group g", "-regex r", "-samefile f", "-fstype x", "-anewer f", "-ls", "-prune", "-fls f", "-printf %d", "nope"];
+        for a in prims {
+            for b in prims {
+                for op in [" ", " -o ", " , "] {
+                    all.push(format!("{a}{op}{b}"));
+                    all.push(format!("-name x {a}{op}! {b} -print"));
+                }
+            }
+        }
+    }
     all.retain(|s| within_bounds(s));
     all
 }
